@@ -95,3 +95,10 @@ impl<Sink: TokenSink> Tokenizer<Sink> {
         }
     }
 }
+
+impl<Sink: TokenSink> Tokenizer<Sink> {
+    /// The line number the tokenizer would pass with a token emitted now (cheap: no dump).
+    pub fn verif_current_line(&self) -> u64 {
+        self.current_line.get()
+    }
+}
